@@ -10,6 +10,7 @@ From SC Require Import Base.Prelude Timeline.Timestamp Timeline.Segment Timeline
   Timeline.TimestampProofs Timeline.SegmentProofs Timeline.ShiftSumProofs Timeline.ModeProofs
   Timeline.OwnProofs Timeline.OwnRefine Timeline.WrapProofs Timeline.C18Judge Timeline.MoreProofs Timeline.C18JudgeProofs
   Timeline.C18Table Gen.C18Funcs.
+From SC Require Import Cmp.Cmp Cmp.Tolerance Cmp.GoTime Timeline.GoTimeMode Timeline.GoTimeModeProofs.
 
 (* timestamp comparison is the chronological total order and returns -1, 0 or 1 *)
 Theorem C18_compare_contract : forall a b,
@@ -485,3 +486,66 @@ Example C18_nonvacuous_own :
   let '(r, h) := shift_own 5 s h0 in
   slice_ok h0 s /\ view_slice h0 h r = (SFresh, [(PFresh, mkSeg 0 (Some 8)); (PArg 2, mkSeg 4 None)]) /\ heap_kept h0 h = true.
 Proof. vm_compute. repeat split; repeat constructor. Qed.
+
+(* ================= fourth wave: Go's time.Time (AsTime wraps at seconds + 62135596800) ================= *)
+
+(* inside the band AsTime is exact and Sub / Before / After / timestamppb.New act on the denoted instants *)
+Theorem C18_go_as_time_exact_in_band : forall s, ts_valid s = true -> in_band s = true ->
+  ts_as_time s = (secs s + unix_to_internal, nanos s) /\ tval (ts_as_time s) = ts_val s.
+Proof. intros s V B. split; [apply ts_as_time_in_band | apply tval_as_time_in_band]; assumption. Qed.
+Print Assumptions C18_go_as_time_exact_in_band.
+
+Theorem C18_go_time_on_instants : forall T U, wf_time T -> wf_time U ->
+  go_sub T U = sat64 (tval T - tval U) /\ go_before T U = (tval T <? tval U) /\ go_after T U = (tval U <? tval T) /\
+  (in64 (fst T - unix_to_internal) = true -> ts_new T = ts_of (tval T)).
+Proof.
+  intros T U WT WU. repeat split; [apply go_sub_tval | apply go_before_tval | apply go_after_tval | apply ts_new_tval]; assumption.
+Qed.
+Print Assumptions C18_go_time_on_instants.
+
+(* hence the mode operations over Go's representation (what the code is compared with for EVERY int64 of seconds)
+   are the functions of Wrap.v, which the theorems above are about *)
+Theorem C18_go_time_mode_ops_in_band : forall t m, in64 t = true -> start_in_band m = true ->
+  mode_active_at_g t m = mode_active_at_w t m /\
+  mode_magnitude_at_g t m = mode_magnitude_at_w t m /\
+  mode_max_segment_after_g t m = mode_max_segment_after_w t m /\
+  mode_cut_g t m = mode_cut_w t m.
+Proof.
+  intros t m Ht B. destruct (mode_reads_g_in_band t m Ht B) as (E1 & E2 & E3).
+  repeat split; try assumption. apply mode_cut_g_in_band; assumption.
+Qed.
+Print Assumptions C18_go_time_mode_ops_in_band.
+
+Theorem C18_go_time_mode_shift_in_band : forall d m, in64 d = true -> start_in_band m = true ->
+  mode_shift_in_band d m = true -> mode_shift_g d m = mode_shift_w d m.
+Proof. exact mode_shift_g_in_band. Qed.
+Print Assumptions C18_go_time_mode_shift_in_band.
+
+(* past the band a start time in the far future looks long past: Sub saturates the wrong way *)
+Theorem C18_go_time_mode_out_of_band_refuted :
+  exists t m, in64 t = true /\ (match mstart m with Some s => ts_valid s | None => false end) = true /\
+              mode_d t m = min64 /\ mode_d_g t m = max64.
+Proof. exact mode_d_g_out_of_band_refuted. Qed.
+
+(* CompareAscending cannot be written as t1.AsTime().Compare(t2.AsTime()): that is the chronological order exactly
+   on the pairs on one side of the band limit, and the reverse order on every pair that straddles it *)
+Theorem C18_compare_via_as_time_exact : forall a b, ts_valid a = true -> ts_valid b = true ->
+  (compare_via_as_time a b = compare_ascending a b <-> in_band a = in_band b).
+Proof. exact compare_via_as_time_exact. Qed.
+Print Assumptions C18_compare_via_as_time_exact.
+
+Theorem C18_compare_via_as_time_refuted : forall a b, ts_valid a = true -> ts_valid b = true ->
+  in_band a = true -> in_band b = false ->
+  compare_ascending a b = -1 /\ compare_via_as_time a b = 1 /\ compare_via_as_time b a = -1.
+Proof. exact compare_via_as_time_reversed. Qed.
+Print Assumptions C18_compare_via_as_time_refuted.
+
+Example C18_nonvacuous_as_time_band :
+  let a := mkTs 0 0 in let b := mkTs 9223372036854775807 0 in
+  ts_valid a = true /\ ts_valid b = true /\ in_band a = true /\ in_band b = false.
+Proof. exact compare_via_as_time_nonvacuous. Qed.
+Example C18_nonvacuous_go_mode_band :
+  let m := mkMode (Some (mkTs 5 0)) [mkSeg 3 (Some 5); mkSeg 1 None] in
+  in64 5000000007 = true /\ start_in_band m = true /\ mode_shift_in_band (-9) m = true /\
+  mode_magnitude_at_g 5000000007 m = (1, true) /\ mode_magnitude_at_g 5000000003 m = (3, true).
+Proof. vm_compute. repeat split. Qed.
